@@ -350,7 +350,23 @@ def replay_file(prop, result, fresh, wd, info):
     return False
 
 
-HOOKS = {'file': replay_file, 'path': replay_path, 'router': replay_router, 'subject': replay_subject, 'threadpool': replay_threadpool, 'thread': replay_thread, 'localeinfo': replay_localeinfo, 'resource': replay_resource, 'ringbuffer': replay_ringbuffer, 'array': replay_array, 'arrayb': replay_array}
+def replay_observable(prop, result, fresh, wd, info):
+    exe = os.path.join(wd, 'obs_replay')
+    cmd = ['g++', '-std=c++20', '-g', '-O0', '-fsanitize=address,undefined', '-I', os.path.join(REPO, 'include'), os.path.join(ROOT, 'replay', 'obs_replay.cpp'), '-o', exe]
+    rc, out = _run(cmd, timeout=900)
+    if rc != 0:
+        info['native'] = 'replay driver does not build against the current tree: ' + out[-1500:]
+        return False
+    rc, o = _run(['timeout', '60', exe], timeout=90, env=dict(os.environ, ASAN_OPTIONS='detect_leaks=0'))
+    if rc != 0 and ('CONFIRMED' in o or 'ERROR: AddressSanitizer' in o or 'runtime error' in o):
+        info['native'] = {'input': 'every operator of Observable<int> (std::equal_to, always-equal, never-equal), Observable<double, tolerance>, Observable<std::string>',
+                          'outcome': 'CONFIRMED', 'output': '\n'.join([l for l in o.split('\n') if 'CONFIRMED' in l or 'ERROR' in l or 'runtime error' in l][:6])}
+        return True
+    info['native'] = {'outcome': 'NOT-REPRODUCED', 'tried': 'operators x value types x equalities'}
+    return False
+
+
+HOOKS = {'observable': replay_observable, 'file': replay_file, 'path': replay_path, 'router': replay_router, 'subject': replay_subject, 'threadpool': replay_threadpool, 'thread': replay_thread, 'localeinfo': replay_localeinfo, 'resource': replay_resource, 'ringbuffer': replay_ringbuffer, 'array': replay_array, 'arrayb': replay_array}
 
 
 def make_replay(prop, result, fresh, wd, tier):
